@@ -28,6 +28,8 @@ OVERRIDES = {
     "C01-8B": (["--features", "p521"], None), "C02-8A": (["--release"], None), "C08-8B": (["--features", "std"], None),
     "C14-8A": (["--release"], None), "C15-8B": (["--release"], None), "C16-8A": (["--features", "std"], None),
     "C17-8A": (["--features", "std"], None), "C17-8B": (["--no-default-features", "--features", "x25519"], None),
+    "C07-9A": (["--features", "std"], None), "C17-9A": (["--no-default-features", "--features", "x25519"], None),
+    "C17-9B": (["--release"], None), "C02-9B": ([], True),
 }
 
 
